@@ -22,6 +22,11 @@ def on_case(ctx):
                     "check": what, "detail": detail,
                     "what": {"raw~min": "minimisation changed the language (word accepted by exactly one of raw / minimised)",
                              "minimal": "the minimised automaton is not trim-minimal"}[what]})
+            elif kind == "sub:pool":
+                ctx.violation("sub:pool-not-the-minimised-automata", {
+                    "grammar": a.text, "grammar_hex": core.hexs(a.text), "shell": a.shell, "detail": detail,
+                    "what": "the within-word automata the scripts are written from are not the (once) minimised automata of the "
+                            "within-word expressions: " + detail})
     return f
 
 
@@ -29,7 +34,9 @@ def run(ctx, proof):
     ctx.extra["rule"] = ("corpus + exhaustive-small + random grammars; for the main automaton and every within-word automaton the pair "
                          "(raw, DFA::minimize(raw)) of the real library is certified: a bisimulation (language preserved), access words and "
                          "accepting continuations for every state (trim), a distinguishing word for every pair of states (reduced) — all "
-                         "found by search and checked by the verified checkers of Cert. non-trivial = raw automaton has >= 3 states")
+                         "found by search and checked by the verified checkers of Cert; the pool of within-word automata the scripts are written "
+                         "from must consist of exactly those minimised automata (shapes whose automaton loops back into its start state "
+                         "included). non-trivial = raw automaton has >= 3 states")
     cases = explore.standard_cases(ctx, "C03")
     explore.run_batches(ctx, cases, on_case(ctx))
     # correspondence breaks of the front stages belong to C02; C03 only owns the minimiser stage
@@ -42,7 +49,7 @@ def replay(ctx, proof, path):
         rp = json.load(f)
     res = stages.analyse([(0, rp["shell"], rp["grammar"])])
     a = res[0]
-    bad = [(k, d) for k, d in a.oracle if k.endswith("raw~min") or k.endswith("minimal")]
+    bad = [(k, d) for k, d in a.oracle if k.endswith("raw~min") or k.endswith("minimal") or k == "sub:pool"]
     if bad:
         print(f"VIOLATION property={ctx.prop} replay={path}")
         print(bad)
